@@ -299,15 +299,22 @@ def saturate (g : Graph) : Nat → List Name → List Name
   | 0, S => S
   | n + 1, S => saturate g n (expand g S)
 
+/-- the saturation reached a fixpoint: the set is closed under successors -/
+def closedB (g : Graph) (S : List Name) : Bool := S.all fun y => (g.succs y).all fun x => decide (x ∈ S)
+
+/-- the `task_dep` / `setup` closure of `base`, by saturation -/
+def closureOf (g : Graph) (base : List Name) : List Name := saturate g (g.names.length + base.length) (addNew [] base)
+
 /-- the set `forget` is documented to clear; `none` = everything -/
 def forgetSpec (g : Graph) (a : ForgetArgs) (dflt : Option (List Name)) : Option (List Name) :=
   if a.all then none
   else if a.names.isEmpty && a.disableDefault then some []
-  else
-    match selTasks a.names dflt with
-    | none => some (if a.followSub then saturate g g.names.length g.names else withSubs g g.names)
-    | some base => some (if a.followSub then saturate g (g.names.length + base.length) (addNew [] base)
-                         else withSubs g base)
+  else if a.followSub then some (closureOf g ((selTasks a.names dflt).getD g.names))
+  else some (withSubs g ((selTasks a.names dflt).getD g.names))
+
+/-- the closure used by `forgetSpec` is a fixpoint (evaluated by the driver on every case) -/
+def forgetSpecClosed (g : Graph) (a : ForgetArgs) (dflt : Option (List Name)) : Bool :=
+  !a.followSub || closedB g (closureOf g ((selTasks a.names dflt).getD g.names))
 
 /-- a task whose up-to-date decision consults saved state: it has a file dependency -/
 def consultsState (d : TaskDef) : Bool := !d.deps.isEmpty
@@ -327,6 +334,10 @@ def ignIter (g : Graph) (defs : Name → TaskDef) : Nat → List Name → List N
 
 def ignClosure (g : Graph) (defs : Name → TaskDef) (marks : List Name) : List Name :=
   ignIter g defs g.names.length marks
+
+/-- no task of the task set outside `S` has a hard dependency in `S` -/
+def ignClosedB (g : Graph) (defs : Name → TaskDef) (S : List Name) : Bool :=
+  g.names.all fun t => S.contains t || !(hardDeps g defs t).any S.contains
 
 /-! ### reset-dep: the record predicate of the property, evaluated on records (the model's or the implementation's) -/
 
